@@ -17,6 +17,11 @@ func (k Key) Equal(k2 Key) bool {
 type KeySet struct {
 	head Key
 	tail []Key
+
+	// nonEmpty is true if the set has at least one key ('head').
+	// The emptiness cannot be derived from 'head' as the empty key
+	// is a valid key and it may be nil (e.g. String("")).
+	nonEmpty bool
 }
 
 func (ks KeySet) First() Key {
@@ -24,7 +29,7 @@ func (ks KeySet) First() Key {
 }
 
 func (ks KeySet) Foreach(fn func(Key)) {
-	if ks.head == nil {
+	if !ks.nonEmpty {
 		return
 	}
 	fn(ks.head)
@@ -34,6 +39,9 @@ func (ks KeySet) Foreach(fn func(Key)) {
 }
 
 func (ks KeySet) Exists(k Key) bool {
+	if !ks.nonEmpty {
+		return false
+	}
 	if ks.head.Equal(k) {
 		return true
 	}
@@ -49,5 +57,5 @@ func NewKeySet(keys ...Key) KeySet {
 	if len(keys) == 0 {
 		return KeySet{}
 	}
-	return KeySet{keys[0], keys[1:]}
+	return KeySet{keys[0], keys[1:], true}
 }
